@@ -531,3 +531,623 @@ Section DFSProofs.
     inversion E; subst. eapply visit_errs; eauto.
   Qed.
 End DFSProofs.
+
+(* ------------------------------------------------------------------ where the map values come from *)
+Definition rng (m : pmap) (L : list spec) : Prop := forall p x k, lookup m p = Some (x, k) -> In x L.
+Definition rngg (g : amap spec) (L : list spec) : Prop := forall p x, lookup g p = Some x -> In x L.
+
+Lemma rng_set : forall m L p x k, rng m L -> In x L -> rng (set p (x, k) m) L.
+Proof.
+  intros m L p x k R I q y j H. destruct (N.eq_dec q p) as [->|Hq].
+  - rewrite lookup_set_eq in H. inversion H; subst. exact I.
+  - rewrite lookup_set_neq in H by exact Hq. eapply R; eauto.
+Qed.
+
+Lemma rngg_set : forall g L p x, rngg g L -> In x L -> rngg (set p x g) L.
+Proof.
+  intros g L p x R I q y H. destruct (N.eq_dec q p) as [->|Hq].
+  - rewrite lookup_set_eq in H. inversion H; subst. exact I.
+  - rewrite lookup_set_neq in H by exact Hq. eapply R; eauto.
+Qed.
+
+Lemma rng_incl : forall m L L', rng m L -> incl L L' -> rng m L'.
+Proof. intros m L L' R I p x k H. apply I. eapply R; eauto. Qed.
+
+Lemma triples_spec_in : forall ss t, In t (triples ss) -> In (tspec t) ss.
+Proof.
+  intros ss t H. unfold triples in H. apply in_flat_map in H. destruct H as [s [Hs Ht]].
+  unfold triples_of in Ht. apply in_map_iff in Ht. destruct Ht as [pk0 [E _]]. subst t. exact Hs.
+Qed.
+
+Lemma triples_in : forall ss s p k, In (s, p, k) (triples ss) <-> In s ss /\ In (p, k) (prios s).
+Proof.
+  intros ss s p k. unfold triples. rewrite in_flat_map. split.
+  - intros [s0 [Hs Ht]]. unfold triples_of in Ht. apply in_map_iff in Ht.
+    destruct Ht as [[q j] [E I]]. cbn in E. inversion E; subst. auto.
+  - intros [Hs Hp]. exists s. split; [exact Hs|]. unfold triples_of. apply in_map_iff.
+    exists (p, k). auto.
+Qed.
+
+Lemma normal_new_rng : forall finals L T seen m m',
+  (forall t, In t T -> In (tspec t) L) -> rng m L -> normal_new finals T seen m = OK m' -> rng m' L.
+Proof.
+  induction T as [|[[s p] k] T IH]; intros seen m m' HT R E; cbn in E.
+  - inversion E; subst. exact R.
+  - destruct (memN p finals); [discriminate|]. destruct (mem_pz (p, k) seen); [discriminate|].
+    assert (Is : In s L) by (apply (HT (s, p, k)); left; reflexivity).
+    eapply IH; [| |exact E].
+    + intros t Ht. apply HT. right. exact Ht.
+    + destruct (lookup m p) as [[s0 k0]|]; [destruct (k <? k0)|]; try exact R; apply rng_set; assumption.
+Qed.
+
+Lemma normal_old_rng : forall finals L T m m',
+  (forall t, In t T -> In (tspec t) L) -> rng m L -> normal_old finals T m = OK m' -> rng m' L.
+Proof.
+  induction T as [|[[s p] k] T IH]; intros m m' HT R E; cbn in E.
+  - inversion E; subst. exact R.
+  - destruct (memN p finals); [discriminate|].
+    assert (Is : In s L) by (apply (HT (s, p, k)); left; reflexivity).
+    assert (HT' : forall t, In t T -> In (tspec t) L) by (intros t Ht; apply HT; right; exact Ht).
+    destruct (lookup m p) as [[s0 k0]|].
+    + destruct (k =? k0); [discriminate|]. eapply IH; [exact HT'| |exact E].
+      destruct (k <? k0); [apply rng_set; assumption | exact R].
+    + eapply IH; [exact HT'| |exact E]. apply rng_set; assumption.
+Qed.
+
+Lemma modify_rng : forall fx finals L T m g m' g',
+  (forall t, In t T -> In (tspec t) L) -> rng m L -> rngg g L ->
+  modify fx finals T m g = OK (m', g') -> rng m' L /\ rngg g' L.
+Proof.
+  induction T as [|[[s p] k] T IH]; intros m g m' g' HT R G E; cbn in E.
+  - inversion E; subst. auto.
+  - destruct (fx && memN p finals); [discriminate|].
+    assert (Is : In s L) by (apply (HT (s, p, k)); left; reflexivity).
+    assert (HT' : forall t, In t T -> In (tspec t) L) by (intros t Ht; apply HT; right; exact Ht).
+    destruct (lookup m p) as [[s0 k0]|].
+    + destruct (k <? k0).
+      * eapply IH; [exact HT'| | |exact E]; [apply rng_set; assumption | exact G].
+      * destruct (memN p (modifiable s)).
+        -- destruct (lookup g p); [discriminate|].
+           eapply IH; [exact HT'| | |exact E]; [exact R | apply rngg_set; assumption].
+        -- eapply IH; eauto.
+    + eapply IH; [exact HT'| | |exact E]; [apply rng_set; assumption | exact G].
+Qed.
+
+Lemma add_defaults_rng : forall L ds m ad, rng m (L ++ ad) ->
+  rng (fst (add_defaults ds m ad)) (L ++ snd (add_defaults ds m ad)).
+Proof.
+  induction ds as [|[p d] ds IH]; intros m ad R; cbn [add_defaults].
+  - exact R.
+  - destruct (lookup m p).
+    + apply IH. exact R.
+    + apply IH. apply rng_set.
+      * eapply rng_incl; [exact R|]. intros x Hx. rewrite app_assoc. apply in_app_iff. left. exact Hx.
+      * rewrite app_assoc. apply in_app_iff. right. left. reflexivity.
+Qed.
+
+Lemma children_closed : forall m g L, rng m L -> rngg g L ->
+  forall v x, In (Some x) (children m g v) -> In x L.
+Proof.
+  intros m g L R G v x H. unfold children in H. apply in_app_iff in H. destruct H as [H|H].
+  - apply in_map_iff in H. destruct H as [d [E _]]. unfold supplier in E.
+    destruct (lookup g d) eqn:Eg.
+    + inversion E; subst. eapply G; eauto.
+    + destruct (lookup m d) as [[y j]|] eqn:Em; cbn in E; [|discriminate].
+      inversion E; subst. eapply R; eauto.
+  - destruct (mod_inv g v); [|contradiction]. destruct H as [H|[]].
+    destruct (lookup m p) as [[y j]|] eqn:Em; cbn in H; [|discriminate].
+    inversion H; subst. eapply R; eauto.
+Qed.
+
+(* ------------------------------------------------------------------ first occurrences and ranks *)
+Fixpoint idx (v : spec) (l : list spec) : nat :=
+  match l with [] => O | y :: r => if spec_eq_dec v y then O else S (idx v r) end.
+
+Lemma idx_app_in : forall x d1 r, In x d1 -> (idx x (d1 ++ r) < length d1)%nat.
+Proof.
+  induction d1 as [|y d1 IH]; intros r H; [contradiction|]. cbn.
+  destruct (spec_eq_dec x y); [lia|]. destruct H as [H|H]; [congruence|].
+  specialize (IH r H). lia.
+Qed.
+
+Lemma idx_first : forall v d1 d2, ~ In v d1 -> idx v (d1 ++ v :: d2) = length d1.
+Proof.
+  induction d1 as [|y d1 IH]; intros d2 H; cbn.
+  - destruct (spec_eq_dec v v); congruence.
+  - destruct (spec_eq_dec v y) as [->|N]; [exfalso; apply H; left; reflexivity|].
+    f_equal. apply IH. intros H'. apply H. right. exact H'.
+Qed.
+
+Lemma in_split_first : forall (v : spec) l, In v l -> exists d1 d2, l = d1 ++ v :: d2 /\ ~ In v d1.
+Proof.
+  induction l as [|y l IH]; intros H; [contradiction|].
+  destruct (spec_eq_dec v y) as [->|N].
+  - exists [], l. split; [reflexivity | intros []].
+  - destruct H as [H|H]; [congruence|]. destruct (IH H) as [d1 [d2 [E Hn]]].
+    exists (y :: d1), d2. split; [cbn; congruence|]. intros [H'|H']; [congruence | auto].
+Qed.
+
+Lemma topo_ranked : forall ch o, topo ch o ->
+  forall v, In v o -> forall c, In c (ch v) ->
+    exists x, c = Some x /\ In x o /\ (idx x o < idx v o)%nat.
+Proof.
+  intros ch o T v Hv c Hc.
+  destruct (in_split_first v o Hv) as [d1 [d2 [E Hn]]].
+  destruct (topo_before ch o T d1 v d2 E c Hc) as [x [Ex Ix]].
+  exists x. split; [exact Ex|]. subst o. split.
+  - apply in_app_iff. left. exact Ix.
+  - rewrite (idx_first v d1 d2 Hn). apply idx_app_in. exact Ix.
+Qed.
+
+Definition dfs_class (e : err) : Prop := e = ECycle \/ e = EMissingDep.
+
+(* success of the DFS does not depend on the order of the roots *)
+Lemma dfs_perm_ok : forall ch all all' o,
+  Permutation all all' ->
+  (forall v, In v all -> forall x, In (Some x) (ch v) -> In x all) ->
+  visit_all ch (S (length all)) all [] = OK o ->
+  exists o', visit_all ch (S (length all')) all' [] = OK o'.
+Proof.
+  intros ch all all' o P C E.
+  destruct (visit_all_sound ch _ _ _ _ (topo_nil ch) E) as [T [_ I]].
+  destruct (visit_all ch (S (length all')) all' []) as [o'|e] eqn:E'; [eexists; reflexivity|].
+  exfalso.
+  assert (e = EFuel).
+  { eapply (visit_all_complete ch o (fun v => idx v o)); [| |exact E'].
+    - intros v Hv c Hc. apply (topo_ranked ch o T v Hv c Hc).
+    - intros x Hx. apply I. eapply Permutation_in; [symmetry; exact P | exact Hx]. }
+  subst e. revert E'. apply (visit_all_fuel ch all').
+  - intros v Hv x Hx. eapply Permutation_in; [exact P|]. eapply C; [|exact Hx].
+    eapply Permutation_in; [symmetry; exact P | exact Hv].
+  - apply incl_refl.
+  - lia.
+Qed.
+
+Lemma dfs_err_class : forall ch all e,
+  (forall v, In v all -> forall x, In (Some x) (ch v) -> In x all) ->
+  visit_all ch (S (length all)) all [] = Err e -> dfs_class e.
+Proof.
+  intros ch all e C E. destruct (visit_all_errs ch _ _ _ _ E) as [H|[H|H]]; [left; exact H | right; exact H|].
+  subst e. exfalso. revert E. apply (visit_all_fuel ch all C); [apply incl_refl | lia].
+Qed.
+
+(* ------------------------------------------------------------------ the whole procedure *)
+Definition is_err {A} (r : result A) : Prop := match r with Err _ => True | OK _ => False end.
+
+Definition err_class (e : err) : nat :=
+  match e with
+  | ESelfModify => 0 | EFinal | EAmbiguous => 1 | EModifiedTwice => 2
+  | ECycle | EMissingDep => 3 | EFuel => 4
+  end%nat.
+
+Definition same_outcome (r r' : result resolved) : Prop :=
+  match r, r' with
+  | OK a, OK b => meq (r_props a) (r_props b) /\ r_mods a = r_mods b /\ Permutation (r_all a) (r_all b)
+  | Err e, Err e' => err_class e = err_class e'
+  | _, _ => False
+  end.
+
+Definition nm (s : spec) : bool := negb (is_mod s).
+
+(* the state before the DFS *)
+Lemma pre_dfs_closed : forall fx specs defaults finals m1 m2 g,
+  normal_phase fx finals (triples (filter nm specs)) = OK m1 ->
+  modify fx finals (triples (filter is_mod specs)) m1 [] = OK (m2, g) ->
+  let m3 := fst (add_defaults defaults m2 []) in
+  let all := specs ++ snd (add_defaults defaults m2 []) in
+  forall v x, In (Some x) (children m3 g v) -> In x all.
+Proof.
+  intros fx specs defaults finals m1 m2 g E1 E2 m3 all.
+  assert (F1 : forall t, In t (triples (filter nm specs)) -> In (tspec t) specs).
+  { intros t Ht. apply triples_spec_in in Ht. apply filter_In in Ht. tauto. }
+  assert (F2 : forall t, In t (triples (filter is_mod specs)) -> In (tspec t) specs).
+  { intros t Ht. apply triples_spec_in in Ht. apply filter_In in Ht. tauto. }
+  assert (R1 : rng m1 specs).
+  { unfold normal_phase in E1. destruct fx.
+    - eapply normal_new_rng; [exact F1| |exact E1]. intros p x k H. discriminate.
+    - eapply normal_old_rng; [exact F1| |exact E1]. intros p x k H. discriminate. }
+  assert (G0 : rngg (@nil (prop * spec)) specs) by (intros p x H; discriminate).
+  destruct (modify_rng _ _ specs _ _ _ _ _ F2 R1 G0 E2) as [R2 G2].
+  apply children_closed.
+  - subst m3 all. apply add_defaults_rng. rewrite app_nil_r. exact R2.
+  - intros p x H. apply in_app_iff. left. eapply G2; eauto.
+Qed.
+
+Lemma perm_short : forall A (l l' : list A), Permutation l l' -> (length l <= 1)%nat -> l = l'.
+Proof.
+  intros A l l' P L. destruct l as [|a [|b l]].
+  - apply Permutation_nil in P. congruence.
+  - apply Permutation_length_1_inv in P. congruence.
+  - cbn in L. lia.
+Qed.
+
+Lemma nodupb_perm : forall l l', Permutation l l' -> nodupb l = nodupb l'.
+Proof.
+  intros l l' P. destruct (nodupb l) eqn:E, (nodupb l') eqn:E'; try reflexivity.
+  - apply nodupb_NoDup in E. apply (Permutation_NoDup P) in E. apply nodupb_NoDup in E. congruence.
+  - apply nodupb_NoDup in E'. apply (Permutation_NoDup (Permutation_sym P)) in E'.
+    apply nodupb_NoDup in E'. congruence.
+Qed.
+
+Theorem resolve_perm : forall specs specs' defaults finals,
+  Permutation specs specs' -> (length (filter is_mod specs) <= 1)%nat ->
+  same_outcome (resolve specs defaults finals) (resolve specs' defaults finals).
+Proof.
+  intros specs specs' defaults finals P L. unfold resolve, resolve_gen.
+  rewrite <- (nodupb_perm (map sname specs) (map sname specs')) by (apply Permutation_map; exact P).
+  destruct (nodupb (map sname specs)); cbn [negb]; [|reflexivity].
+  change (fun s : spec => negb (is_mod s)) with nm.
+  assert (PT : Permutation (triples (filter nm specs)) (triples (filter nm specs'))).
+  { unfold triples. apply Permutation_flat_map. apply Permutation_filter'. exact P. }
+  assert (EM : filter is_mod specs' = filter is_mod specs).
+  { symmetry. apply perm_short; [apply Permutation_filter'; exact P | exact L]. }
+  rewrite EM.
+  pose proof (normal_new_perm finals _ _ PT) as HN. unfold normal_phase.
+  destruct (normal_new finals (triples (filter nm specs)) [] []) as [m1|e1] eqn:E1;
+    destruct (normal_new finals (triples (filter nm specs')) [] []) as [m1'|e1'] eqn:E1'; try contradiction.
+  2:{ destruct HN as [[?|?] [?|?]]; subst; reflexivity. }
+  pose proof (modify_meq true finals (triples (filter is_mod specs)) m1 m1' [] HN) as HM.
+  destruct (modify true finals (triples (filter is_mod specs)) m1 []) as [[m2 g]|e2] eqn:E2;
+    destruct (modify true finals (triples (filter is_mod specs)) m1' []) as [[m2' g']|e2'] eqn:E2'; try contradiction.
+  2:{ subst. reflexivity. }
+  destruct HM as [HM Hg]. subst g'.
+  pose proof (add_defaults_meq defaults m2 m2' [] HM) as [HA1 HA2].
+  pose proof (pre_dfs_closed true specs defaults finals m1 m2 g E1 E2) as C. cbn zeta in C.
+  assert (E2'' : modify true finals (triples (filter is_mod specs')) m1' [] = OK (m2', g)) by (rewrite EM; exact E2').
+  pose proof (pre_dfs_closed true specs' defaults finals m1' m2' g E1' E2'') as C'. cbn zeta in C'.
+  destruct (add_defaults defaults m2 []) as [m3 added] eqn:EA.
+  destruct (add_defaults defaults m2' []) as [m3' added'] eqn:EA'.
+  cbn [fst snd] in *. subst added'.
+  rewrite (visit_all_ext (children m3' g) (children m3 g)) by (intros v; symmetry; apply children_meq; exact HA1).
+  assert (PA : Permutation (specs ++ added) (specs' ++ added)) by (apply Permutation_app_tail; exact P).
+  assert (C2 : forall v, In v (specs ++ added) -> forall x, In (Some x) (children m3 g v) -> In x (specs ++ added))
+    by (intros v _ x Hx; eapply C; exact Hx).
+  assert (C2' : forall v, In v (specs' ++ added) -> forall x, In (Some x) (children m3 g v) -> In x (specs' ++ added)).
+  { intros v _ x Hx. eapply (C' v). rewrite <- (children_meq m3 m3' g v HA1). exact Hx. }
+  destruct (visit_all (children m3 g) (S (length (specs ++ added))) (specs ++ added) []) as [o|e] eqn:EO;
+    destruct (visit_all (children m3 g) (S (length (specs' ++ added))) (specs' ++ added) []) as [o'|e'] eqn:EO'.
+  - cbn. auto.
+  - destruct (dfs_perm_ok _ _ _ _ PA C2 EO) as [o' Ho']. congruence.
+  - destruct (dfs_perm_ok _ _ _ _ (Permutation_sym PA) C2' EO') as [o Ho]. congruence.
+  - cbn. destruct (dfs_err_class _ _ _ C2 EO) as [?|?], (dfs_err_class _ _ _ C2' EO') as [?|?]; subst; reflexivity.
+Qed.
+
+(* the code as found in round 0 is order dependent (F1) *)
+Definition specs_f1 := [sA; sB; sC].
+Definition specs_f1' := [sA; sC; sB].
+Theorem resolve_order_dependent_refuted :
+  Permutation specs_f1 specs_f1' /\ (length (filter is_mod specs_f1) <= 1)%nat /\
+  ~ same_outcome (resolve_old specs_f1 [] []) (resolve_old specs_f1' [] []).
+Proof.
+  split; [apply perm_skip; apply perm_swap|]. split; [cbn; lia|]. vm_compute. intros H. exact H.
+Qed.
+
+(* fuel is never exhausted *)
+Theorem resolve_no_fuel : forall fx specs defaults finals,
+  resolve_gen fx specs defaults finals <> Err EFuel.
+Proof.
+  intros fx specs defaults finals. unfold resolve_gen.
+  destruct (negb (nodupb (map sname specs))); [discriminate|].
+  change (fun s : spec => negb (is_mod s)) with nm.
+  destruct (normal_phase fx finals (triples (filter nm specs))) as [m1|e1] eqn:E1.
+  2:{ intros H. inversion H; subst. unfold normal_phase in E1. destruct fx.
+      - pose proof (normal_new_correct finals (triples (filter nm specs))) as K. rewrite E1 in K. exact K.
+      - clear -E1. revert E1. generalize (@nil (prop * (spec * Z))).
+        induction (triples (filter nm specs)) as [|[[s p] k] T IH]; intros m E; cbn in E; [discriminate|].
+        destruct (memN p finals); [discriminate|]. destruct (lookup m p) as [[s0 k0]|].
+        + destruct (k =? k0); [discriminate|]. eapply IH; eauto.
+        + eapply IH; eauto. }
+  destruct (modify fx finals (triples (filter is_mod specs)) m1 []) as [[m2 g]|e2] eqn:E2.
+  2:{ intros H. inversion H; subst. clear -E2. revert E2. generalize (@nil (prop * spec)). generalize m1.
+      induction (triples (filter is_mod specs)) as [|[[s p] k] T IH]; intros m g E; cbn in E; [discriminate|].
+      destruct (fx && memN p finals); [discriminate|]. destruct (lookup m p) as [[s0 k0]|].
+      - destruct (k <? k0); [eapply IH; eauto|]. destruct (memN p (modifiable s)); [|eapply IH; eauto].
+        destruct (lookup g p); [discriminate | eapply IH; eauto].
+      - eapply IH; eauto. }
+  pose proof (pre_dfs_closed fx specs defaults finals m1 m2 g E1 E2) as C. cbn zeta in C.
+  destruct (add_defaults defaults m2 []) as [m3 added] eqn:EA. cbn [fst snd] in C.
+  destruct (visit_all (children m3 g) (S (length (specs ++ added))) (specs ++ added) []) as [o|e] eqn:EO; [discriminate|].
+  intros H. inversion H; subst. revert EO. apply (visit_all_fuel _ (specs ++ added)).
+  - intros v _ x Hx. eapply C; exact Hx.
+  - apply incl_refl.
+  - lia.
+Qed.
+
+(* evaluation order: every specifier comes after the suppliers of everything it depends on, and a
+   modifier after the specifier whose value it modifies; every specifier is evaluated *)
+Theorem order_topological : forall fx specs defaults finals r,
+  resolve_gen fx specs defaults finals = OK r ->
+  (forall d1 v d2, r_order r = d1 ++ v :: d2 ->
+     (forall p, In p (deps v) -> exists x, supplier (r_props r) (r_mods r) p = Some x /\ In x d1) /\
+     (forall p, mod_inv (r_mods r) v = Some p ->
+        exists x k, lookup (r_props r) p = Some (x, k) /\ In x d1)) /\
+  incl (r_all r) (r_order r) /\ incl specs (r_all r).
+Proof.
+  intros fx specs defaults finals r E. unfold resolve_gen in E.
+  destruct (negb (nodupb (map sname specs))); [discriminate|].
+  destruct (normal_phase fx finals _) as [m1|]; [|discriminate].
+  destruct (modify fx finals _ m1 []) as [[m2 g]|]; [|discriminate].
+  destruct (add_defaults defaults m2 []) as [m3 added].
+  destruct (visit_all (children m3 g) _ (specs ++ added) []) as [o|] eqn:EO; [|discriminate].
+  inversion E; subst r. cbn [r_props r_mods r_all r_order].
+  destruct (visit_all_sound _ _ _ _ _ (topo_nil _) EO) as [T [_ I]].
+  split; [|split; [exact I | intros x Hx; apply in_app_iff; left; exact Hx]].
+  intros d1 v d2 Eo. pose proof (topo_before _ _ T d1 v d2 Eo) as K. split.
+  - intros p Hp. apply K. unfold children. apply in_app_iff. left. apply in_map. exact Hp.
+  - intros p Hp. destruct (K (option_map fst (lookup m3 p))) as [x [Ex Ix]].
+    + unfold children. apply in_app_iff. right. rewrite Hp. left. reflexivity.
+    + destruct (lookup m3 p) as [[y k]|]; cbn in Ex; [|discriminate]. inversion Ex; subst.
+      exists x, k. auto.
+Qed.
+
+(* a final property can be neither specified nor modified (repaired algorithm) *)
+Lemma modify_final : forall finals T m g, (exists t, In t T /\ In (tprop t) finals) ->
+  is_err (modify true finals T m g).
+Proof.
+  induction T as [|[[s p] k] T IH]; intros m g [t [Ht Hf]]; [contradiction|]. cbn [modify].
+  destruct (memN p finals) eqn:F; cbn [andb]; [exact I|].
+  assert (Ex : exists t, In t T /\ In (tprop t) finals).
+  { destruct Ht as [Ht|Ht]; [|eauto]. subst t. unfold tprop in Hf. cbn in Hf.
+    apply memN_In in Hf. congruence. }
+  destruct (lookup m p) as [[s0 k0]|].
+  - destruct (k <? k0); [apply IH; exact Ex|]. destruct (memN p (modifiable s)); [|apply IH; exact Ex].
+    destruct (lookup g p); [exact I | apply IH; exact Ex].
+  - apply IH. exact Ex.
+Qed.
+
+Theorem final_rejected : forall specs defaults finals s p k,
+  In s specs -> In (p, k) (prios s) -> In p finals -> is_err (resolve specs defaults finals).
+Proof.
+  intros specs defaults finals s p k Hs Hp Hf. unfold resolve, resolve_gen.
+  destruct (negb (nodupb (map sname specs))); [exact I|].
+  change (fun s : spec => negb (is_mod s)) with nm. unfold normal_phase.
+  pose proof (normal_new_correct finals (triples (filter nm specs))) as K.
+  destruct (normal_new finals (triples (filter nm specs)) [] []) as [m1|]; [|exact I].
+  destruct K as [_ [NF _]].
+  destruct (is_mod s) eqn:M.
+  - pose proof (modify_final finals (triples (filter is_mod specs)) m1 []) as MF.
+    destruct (modify true finals (triples (filter is_mod specs)) m1 []); [|exact I].
+    exfalso. apply MF. exists (s, p, k). split; [|exact Hf].
+    apply triples_in. split; [apply filter_In; auto | exact Hp].
+  - exfalso. apply (NF (s, p, k)); [|exact Hf].
+    apply triples_in. split; [apply filter_In; split; [exact Hs | unfold nm; rewrite M; reflexivity] | exact Hp].
+Qed.
+
+(* as found, a modifying specifier could take over a final property *)
+Definition sOn := mkSpec 9%N [(1%N, 1)] [] true [1%N].
+Theorem final_rejected_old_refuted :
+  In sOn [sOn] /\ In (1%N, 1) (prios sOn) /\ In 1%N [1%N] /\ ~ is_err (resolve_old [sOn] [] [1%N]).
+Proof. repeat split; try (left; reflexivity). vm_compute. intros H. exact H. Qed.
+
+(* two specifiers giving a property the same priority are an error whatever else is written *)
+Theorem tie_rejected : forall specs defaults finals s s' p k,
+  In s specs -> In s' specs -> s <> s' -> is_mod s = false -> is_mod s' = false ->
+  In (p, k) (prios s) -> In (p, k) (prios s') -> is_err (resolve specs defaults finals).
+Proof.
+  intros specs defaults finals s s' p k Hs Hs' Hne M M' Hp Hp'. unfold resolve, resolve_gen.
+  destruct (negb (nodupb (map sname specs))); [exact I|].
+  change (fun s : spec => negb (is_mod s)) with nm. unfold normal_phase.
+  pose proof (normal_new_correct finals (triples (filter nm specs))) as K.
+  destruct (normal_new finals (triples (filter nm specs)) [] []) as [m1|]; [|exact I].
+  destruct K as [TF _]. exfalso.
+  assert (A : In (s, p, k) (triples (filter nm specs))).
+  { apply triples_in. split; [apply filter_In; split; [exact Hs | unfold nm; rewrite M; reflexivity] | exact Hp]. }
+  assert (B : In (s', p, k) (triples (filter nm specs))).
+  { apply triples_in. split; [apply filter_In; split; [exact Hs' | unfold nm; rewrite M'; reflexivity] | exact Hp']. }
+  pose proof (NoDup_map_inj _ _ pk _ _ _ TF A B eq_refl) as E. inversion E. contradiction.
+Qed.
+
+(* ------------------------------------------------------------------ at most one modifying specifier *)
+Lemma NoDup_map_filter : forall A B (f : A -> B) (g : A -> bool) l,
+  NoDup (map f l) -> NoDup (map f (filter g l)).
+Proof.
+  induction l as [|a l IH]; cbn; intros H; [constructor|]. inversion H as [|? ? Hn Hd]; subst.
+  destruct (g a); cbn; [constructor|]; auto.
+  intros Hin. apply Hn. apply in_map_iff in Hin. destruct Hin as [x [E Hx]].
+  apply filter_In in Hx. apply in_map_iff. exists x. tauto.
+Qed.
+
+(* all modifying specifiers share one name (true of Scenic: only `on`) + no name used twice *)
+Definition one_mod_name (s : list spec) : Prop :=
+  forall a b, In a s -> In b s -> is_mod a = true -> is_mod b = true -> sname a = sname b.
+
+Theorem single_modifier : forall s, one_mod_name s -> NoDup (map sname s) ->
+  (length (filter is_mod s) <= 1)%nat.
+Proof.
+  intros s H ND0. pose proof (NoDup_map_filter _ _ sname is_mod s ND0) as ND.
+  destruct (filter is_mod s) as [|a [|b r]] eqn:E; cbn; try lia. exfalso.
+  assert (Ia : In a (filter is_mod s)) by (rewrite E; left; reflexivity).
+  assert (Ib : In b (filter is_mod s)) by (rewrite E; right; left; reflexivity).
+  apply filter_In in Ia. apply filter_In in Ib. cbn in ND. inversion ND as [|? ? Hn _]; subst.
+  apply Hn. left. symmetry. apply H; tauto.
+Qed.
+
+Theorem resolve_perm_builtin : forall specs specs' defaults finals,
+  one_mod_name specs -> Permutation specs specs' ->
+  same_outcome (resolve specs defaults finals) (resolve specs' defaults finals).
+Proof.
+  intros specs specs' defaults finals H P.
+  destruct (nodupb (map sname specs)) eqn:E.
+  - apply resolve_perm; [exact P|]. apply single_modifier; [exact H|]. apply nodupb_NoDup. exact E.
+  - unfold resolve, resolve_gen.
+    rewrite <- (nodupb_perm (map sname specs) (map sname specs')) by (apply Permutation_map; exact P).
+    rewrite E. cbn. reflexivity.
+Qed.
+
+(* ------------------------------------------------------------------ the result, property by property *)
+Lemma modify_frame : forall fx finals T m g m' g' p,
+  ~ In p (map tprop T) -> modify fx finals T m g = OK (m', g') ->
+  lookup m' p = lookup m p /\ lookup g' p = lookup g p.
+Proof.
+  induction T as [|[[s q] k] T IH]; intros m g m' g' p Hn E; cbn in E.
+  - inversion E; subst. auto.
+  - destruct (fx && memN q finals); [discriminate|].
+    assert (Hq : p <> q) by (intros ->; apply Hn; left; reflexivity).
+    assert (Hn' : ~ In p (map tprop T)) by (intros H; apply Hn; right; exact H).
+    destruct (lookup m q) as [[s0 k0]|].
+    + destruct (k <? k0).
+      * destruct (IH _ _ _ _ _ Hn' E) as [A B]. rewrite A, B. rewrite lookup_set_neq by exact Hq. auto.
+      * destruct (memN q (modifiable s)).
+        -- destruct (lookup g q); [discriminate|].
+           destruct (IH _ _ _ _ _ Hn' E) as [A B]. rewrite A, B. rewrite lookup_set_neq by exact Hq. auto.
+        -- eapply IH; eauto.
+    + destruct (IH _ _ _ _ _ Hn' E) as [A B]. rewrite A, B. rewrite lookup_set_neq by exact Hq. auto.
+Qed.
+
+Lemma modify_ok_nofinal : forall finals T m g m' g',
+  modify true finals T m g = OK (m', g') -> nofinal finals T.
+Proof.
+  induction T as [|[[s q] k] T IH]; intros m g m' g' E t Ht; [contradiction|]. cbn in E.
+  destruct (memN q finals) eqn:F; cbn [andb] in E; [discriminate|].
+  destruct Ht as [Ht|Ht].
+  - subst t. unfold tprop. cbn. apply memN_false. exact F.
+  - revert t Ht. change (nofinal finals T).
+    destruct (lookup m q) as [[s0 k0]|].
+    + destruct (k <? k0); [eapply IH; eauto|]. destruct (memN q (modifiable s)); [|eapply IH; eauto].
+      destruct (lookup g q); [discriminate | eapply IH; eauto].
+    + eapply IH; eauto.
+Qed.
+
+(* what a modifying specifier does to a property it mentions (once) *)
+Lemma modify_at : forall fx finals T m g m' g' s p k,
+  NoDup (map tprop T) -> In (s, p, k) T -> lookup g p = None ->
+  modify fx finals T m g = OK (m', g') ->
+  match lookup m p with
+  | Some (s0, k0) =>
+      if k <? k0 then lookup m' p = Some (s, k) /\ lookup g' p = None
+      else lookup m' p = Some (s0, k0) /\ lookup g' p = (if memN p (modifiable s) then Some s else None)
+  | None => lookup m' p = Some (s, k) /\ lookup g' p = None
+  end.
+Proof.
+  induction T as [|[[s1 q] k1] T IH]; intros m g m' g' s p k ND Hin Hg E; [contradiction|].
+  cbn in ND. inversion ND as [|? ? Hn ND']; subst. cbn in E.
+  destruct (fx && memN q finals); [discriminate|].
+  destruct Hin as [Hin|Hin].
+  - inversion Hin; subst s1 q k1. clear Hin. unfold tprop in Hn. cbn in Hn.
+    destruct (lookup m p) as [[s0 k0]|] eqn:Em.
+    + destruct (k <? k0).
+      * destruct (modify_frame _ _ _ _ _ _ _ _ Hn E) as [A B]. rewrite A, B, lookup_set_eq. auto.
+      * destruct (memN p (modifiable s)).
+        -- rewrite Hg in E. destruct (modify_frame _ _ _ _ _ _ _ _ Hn E) as [A B].
+           rewrite A, B, lookup_set_eq. auto.
+        -- destruct (modify_frame _ _ _ _ _ _ _ _ Hn E) as [A B]. rewrite A, B. auto.
+    + destruct (modify_frame _ _ _ _ _ _ _ _ Hn E) as [A B]. rewrite A, B, lookup_set_eq. auto.
+  - assert (Hq : p <> q).
+    { intros ->. apply Hn. apply in_map_iff. exists (s, q, k). auto. }
+    unfold tprop in Hn. cbn in Hn.
+    destruct (lookup m q) as [[s0 k0]|].
+    + destruct (k1 <? k0).
+      * specialize (IH _ _ _ _ _ _ _ ND' Hin Hg E). rewrite lookup_set_neq in IH by exact Hq. exact IH.
+      * destruct (memN q (modifiable s1)).
+        -- destruct (lookup g q); [discriminate|].
+           assert (Hg' : lookup (set q s1 g) p = None) by (rewrite lookup_set_neq by exact Hq; exact Hg).
+           exact (IH _ _ _ _ _ _ _ ND' Hin Hg' E).
+        -- exact (IH _ _ _ _ _ _ _ ND' Hin Hg E).
+    + specialize (IH _ _ _ _ _ _ _ ND' Hin Hg E). rewrite lookup_set_neq in IH by exact Hq. exact IH.
+Qed.
+
+Lemma add_defaults_lookup : forall ds m ad p,
+  lookup (fst (add_defaults ds m ad)) p =
+  match lookup m p with
+  | Some v => Some v
+  | None => option_map (fun d => (d, -1)) (lookup ds p)
+  end.
+Proof.
+  induction ds as [|[q d] ds IH]; intros m ad p; cbn [add_defaults].
+  - cbn. destruct (lookup m p); reflexivity.
+  - destruct (lookup m q) eqn:Eq.
+    + rewrite IH. destruct (lookup m p) eqn:Ep; [reflexivity|]. cbn [lookup].
+      destruct (N.eqb p q) eqn:Epq; [|reflexivity]. apply N.eqb_eq in Epq. congruence.
+    + rewrite IH. destruct (N.eq_dec p q) as [->|Hpq].
+      * rewrite lookup_set_eq, Eq. cbn [lookup]. rewrite N.eqb_refl. reflexivity.
+      * rewrite lookup_set_neq by exact Hpq. cbn [lookup]. apply N.eqb_neq in Hpq. rewrite Hpq. reflexivity.
+Qed.
+
+Lemma triples_tprop : forall ss p, In p (map tprop (triples ss)) <-> exists s k, In s ss /\ In (p, k) (prios s).
+Proof.
+  intros ss p. rewrite in_map_iff. split.
+  - intros [[[s q] k] [E H]]. unfold tprop in E. cbn in E. subst q. apply triples_in in H. exists s, k. exact H.
+  - intros [s [k H]]. exists (s, p, k). split; [reflexivity | apply triples_in; exact H].
+Qed.
+
+(* The reference's procedure, steps 1-3: on success no name is used twice, no two (normal) specifiers tie on
+   any property at any level, no final property is mentioned; a property that no modifying specifier
+   mentions is held by its unique highest-priority specifier, else by the class default, and is not modified. *)
+Theorem resolve_matches_doc : forall specs defaults finals r,
+  resolve specs defaults finals = OK r ->
+  let Tn := triples (filter nm specs) in
+  NoDup (map sname specs) /\ tie_free Tn /\
+  (forall s p k, In s specs -> In (p, k) (prios s) -> ~ In p finals) /\
+  forall p, (forall s k, In s specs -> is_mod s = true -> ~ In (p, k) (prios s)) ->
+    lookup (r_mods r) p = None /\
+    match lookup (r_props r) p with
+    | Some (x, k) => best Tn p x k \/ ((forall s k', ~ In (s, p, k') Tn) /\ lookup defaults p = Some x /\ k = -1)
+    | None => (forall s k', ~ In (s, p, k') Tn) /\ lookup defaults p = None
+    end.
+Proof.
+  intros specs defaults finals r E Tn. unfold resolve, resolve_gen in E.
+  destruct (nodupb (map sname specs)) eqn:ND; cbn [negb] in E; [|discriminate].
+  change (fun s : spec => negb (is_mod s)) with nm in E. unfold normal_phase in E. fold Tn in E.
+  pose proof (normal_new_correct finals Tn) as K.
+  destruct (normal_new finals Tn [] []) as [m1|]; [|discriminate].
+  destruct K as [TF [NF W]].
+  destruct (modify true finals (triples (filter is_mod specs)) m1 []) as [[m2 g]|] eqn:E2; [|discriminate].
+  pose proof (add_defaults_lookup defaults m2 []) as AL.
+  destruct (add_defaults defaults m2 []) as [m3 added]. cbn [fst] in AL.
+  destruct (visit_all (children m3 g) _ (specs ++ added) []); [|discriminate].
+  inversion E; subst r. cbn [r_props r_mods].
+  split; [apply nodupb_NoDup; exact ND|]. split; [exact TF|]. split.
+  - intros s p k Hs Hp. destruct (is_mod s) eqn:M.
+    + apply (modify_ok_nofinal _ _ _ _ _ _ E2 (s, p, k)). apply triples_in. split; [apply filter_In; auto | exact Hp].
+    + apply (NF (s, p, k)). apply triples_in. split; [apply filter_In; split; [exact Hs | unfold nm; rewrite M; reflexivity] | exact Hp].
+  - intros p Hp.
+    assert (Hn : ~ In p (map tprop (triples (filter is_mod specs)))).
+    { intros H. apply triples_tprop in H. destruct H as [s [k [Hs Hk]]]. apply filter_In in Hs.
+      apply (Hp s k); tauto. }
+    destruct (modify_frame _ _ _ _ _ _ _ _ Hn E2) as [A B]. split; [rewrite B; reflexivity|].
+    rewrite AL, A. specialize (W p). destruct (lookup m1 p) as [[x k]|].
+    + left. exact W.
+    + destruct (lookup defaults p); cbn; auto.
+Qed.
+
+(* ... and a property the (single) modifying specifier M mentions: M specifies it when it has strictly
+   higher priority than every other specifier (or nobody else specifies it); otherwise the best normal
+   specifier keeps it and M modifies it exactly when the property is modifiable. *)
+Theorem resolve_matches_doc_modifier : forall specs defaults finals r M p k,
+  resolve specs defaults finals = OK r ->
+  filter is_mod specs = [M] -> NoDup (map fst (prios M)) -> In (p, k) (prios M) ->
+  let Tn := triples (filter nm specs) in
+  (forall s0 k0, best Tn p s0 k0 ->
+     if k <? k0 then lookup (r_props r) p = Some (M, k) /\ lookup (r_mods r) p = None
+     else lookup (r_props r) p = Some (s0, k0) /\
+          lookup (r_mods r) p = (if memN p (modifiable M) then Some M else None)) /\
+  ((forall s0 k0, ~ In (s0, p, k0) Tn) -> lookup (r_props r) p = Some (M, k) /\ lookup (r_mods r) p = None).
+Proof.
+  intros specs defaults finals r M p k E EM NDM Hp Tn. unfold resolve, resolve_gen in E.
+  destruct (nodupb (map sname specs)); cbn [negb] in E; [|discriminate].
+  change (fun s : spec => negb (is_mod s)) with nm in E. unfold normal_phase in E. fold Tn in E.
+  pose proof (normal_new_correct finals Tn) as K.
+  destruct (normal_new finals Tn [] []) as [m1|]; [|discriminate].
+  destruct K as [TF [NF W]]. rewrite EM in E.
+  destruct (modify true finals (triples [M]) m1 []) as [[m2 g]|] eqn:E2; [|discriminate].
+  pose proof (add_defaults_lookup defaults m2 []) as AL.
+  destruct (add_defaults defaults m2 []) as [m3 added]. cbn [fst] in AL.
+  destruct (visit_all (children m3 g) _ (specs ++ added) []); [|discriminate].
+  inversion E; subst r. cbn [r_props r_mods].
+  assert (NDT : NoDup (map tprop (triples [M]))).
+  { unfold triples. cbn. rewrite app_nil_r. unfold triples_of. rewrite map_map. cbn. exact NDM. }
+  assert (HinT : In (M, p, k) (triples [M])) by (apply triples_in; split; [left; reflexivity | exact Hp]).
+  assert (G0 : lookup (@nil (prop * spec)) p = None) by reflexivity.
+  pose proof (modify_at _ _ _ _ _ _ _ _ _ _ NDT HinT G0 E2) as MA.
+  specialize (W p). rewrite AL. split.
+  - intros s0 k0 B. destruct (lookup m1 p) as [[s1 k1]|].
+    + assert (k1 = k0) by (destruct W as [Wi Wm], B as [Bi Bm]; apply Wm in Bi; apply Bm in Wi; lia). subst k1.
+      assert (s1 = s0).
+      { destruct W as [Wi _], B as [Bi _].
+        pose proof (NoDup_map_inj _ _ pk _ _ _ TF Wi Bi eq_refl) as Q. inversion Q. reflexivity. }
+      subst s1. destruct (k <? k0); destruct MA as [A1 A2]; rewrite A1; auto.
+    + exfalso. destruct B as [Bi _]. eapply W; eauto.
+  - intros Hnone. destruct (lookup m1 p) as [[s1 k1]|].
+    + exfalso. destruct W as [Wi _]. eapply Hnone; eauto.
+    + destruct MA as [A1 A2]. rewrite A1. auto.
+Qed.
